@@ -29,9 +29,9 @@ import (
 
 // ConnPlan says how the server behind one connection behaves.
 type ConnPlan struct {
-	Dial    string // "ok" | "err" | "hang" (until the dial context ends)
-	Answer  int    // answer this many queries ...
-	After   string // ... then: "healthy" keep answering | "close" EOF right behind the last reply | "silent" |
+	Dial   string // "ok" | "err" | "hang" (until the dial context ends)
+	Answer int    // answer this many queries ...
+	After  string // ... then: "healthy" keep answering | "close" EOF right behind the last reply | "silent" |
 	//          "reset" the next Write fails | "rst" the next Write succeeds and the read side then fails
 	HoldAll bool // do not answer until Release() (to build up concurrent in-flight queries)
 	// SlowClose: the client's Close() of this connection takes this long (a TLS close_notify flush, a slow kernel).
@@ -340,7 +340,7 @@ type CallObs struct {
 	Idx       int
 	Passes    []Pass
 	Err       error
-	Tag       int  // tag of the reply (must equal Idx)
+	Tag       int // tag of the reply (must equal Idx)
 	Returned  bool
 	Cancelled bool
 	Conns     map[int]bool
